@@ -544,7 +544,12 @@ func copyOutSymlink(w *bytes.Buffer, param *syntax.StructMember,
 		ap = filepath.Clean(filepath.Join(filepath.Dir(filePath), p))
 		// resolve when the pointed-to file is a symlink, but unlike
 		// filepath.EvalSymlinks we don't want to walk up the tree.
-		for rp, err := os.Readlink(ap); err == nil; rp, err = os.Readlink(ap) {
+		// Follow at most as many links as the kernel would, so that a
+		// cycle of links cannot hang post-processing.
+		const maxLinks = 40
+		links := 0
+		for rp, err := os.Readlink(ap); err == nil && links < maxLinks; rp, err = os.Readlink(ap) {
+			links++
 			p = ap
 			if filepath.IsAbs(rp) {
 				ap = rp
